@@ -15,7 +15,13 @@ def gen_wait(tape, rich: bool):
         return ("fixed", tape.choice([1, 2, 3], "w.fixed"))
     if k == 1:
         n = tape.rng_int(2, 4, "w.chain.n")
-        return ("chain", [("fixed", tape.choice([1, 2, 4, 8, 16], "w.chain.d")) for _ in range(n)])
+        lst = [("fixed", tape.choice([1, 2, 4, 8, 16], "w.chain.d")) for _ in range(n)]
+        if tape.chance(40, 100, "w.chain.tail"):
+            # a tail that depends on the attempt number, reused once the chain is exhausted
+            lst[-1] = tape.choice([("exp", 1, 2, 60, 0), ("inc", 1, 2, 100), ("exp", 0.5, 3, 60, 0)], "w.chain.tailkind")
+            if n > 2 and tape.chance(50, 100, "w.chain.short"):
+                lst = lst[:1] + lst[-1:]
+        return ("chain", lst)
     if k == 2:
         return ("exp", tape.choice([1, 2, 0.5], "w.exp.m"), tape.choice([2, 3], "w.exp.b"),
                 tape.choice([60, 8, 4], "w.exp.max"), tape.choice([0, 0, 1], "w.exp.min"))
@@ -89,9 +95,13 @@ def wait_kind(w) -> str:
 def gen_retry_spec(tape, cfg: dict[str, Any]) -> dict:
     rich = cfg.get("rich_waits", False)
     pol = {"retry": gen_retry_cond(tape), "wait": gen_wait(tape, rich), "stop": gen_stop(tape) if not cfg.get("stop_attempts_only") else ("attempt", tape.rng_int(2, 6, "stop.n3"))}
+    if tape.chance(cfg.get("p_user_policy", 25), 100, "pol.user"):
+        pol["user"] = tape.choice(["plain", "seed"], "pol.user.kind")
     nexc = tape.rng_int(1, 3, "excs.n")
     excs = [tape.choice(EXC_POOL, "excs") for _ in range(nexc)]
     k = -1 if tape.chance(60, 100, "always-fail") else tape.rng_int(1, 4, "fail.k")
+    if tape.chance(cfg.get("p_contend", 0), 100, "contend?"):
+        return _contended(tape, cfg, pol, excs, k)
     steps = [{"name": "s0", "accepts": ["Start0"], "workers": 1, "sync": False, "retry": pol, "role": "step",
               "scripts": {"Start0": [("work",), ("failseq", excs, k), ("ret", "stop")]}, "returns": [], "stop": True}]
     if tape.chance(cfg.get("p_handler", 40), 100, "handler?"):
@@ -99,6 +109,36 @@ def gen_retry_spec(tape, cfg: dict[str, Any]) -> dict:
                       "for_steps": None, "max_recoveries": 1, "scripts": {"StepFailedEvent": [("ret", "stop")]},
                       "returns": [], "stop": True})
     return {"steps": steps, "types": [], "timeout": None, "driver": "result", "disable_validation": False}
+
+
+def _contended(tape, cfg, pol, excs, k) -> dict:
+    """src fans n events out to s0 (1-2 workers): retries and fresh events meet busy worker slots and wait in the step queue"""
+    n = tape.rng_int(2, 4, "fan.n")
+    workers = tape.rng_int(1, 2, "s0.workers")
+    sel = sorted(tape.subset(list(range(n)), "failing") or [0])
+    steps = [
+        {"name": "src", "accepts": ["Start0"], "workers": 1, "sync": False, "retry": None, "role": "step",
+         "scripts": {"Start0": [("psend", "E0", n), ("ret", None)]}, "returns": ["E0"], "stop": False},
+        {"name": "s0", "accepts": ["E0"], "workers": workers, "sync": False, "retry": pol, "role": "step",
+         "scripts": {"E0": [("work",), ("failsel", excs, k, sel), ("work", "work2"), ("ret", None)]}, "returns": [], "stop": False},
+        {"name": "zfin", "accepts": ["Fin"], "workers": 1, "sync": False, "retry": None, "role": "step",
+         "scripts": {"Fin": [("pstop",)]}, "returns": [], "stop": True},
+    ]
+    if tape.chance(cfg.get("p_handler", 40), 100, "handler?"):
+        steps.append({"name": "h", "accepts": ["StepFailedEvent"], "workers": 1, "sync": False, "retry": None, "role": "catch",
+                      "for_steps": None, "max_recoveries": 1, "scripts": {"StepFailedEvent": [("ret", None)]},
+                      "returns": [], "stop": False})
+    return {"steps": steps, "types": ["E0"], "timeout": None, "driver": "finish", "disable_validation": False, "contended": True,
+            "fan": n, "workers": workers}
+
+
+def deliveries(recs, step="s0"):
+    """uid -> attempts (see attempts_of) for every event delivered to `step`, in order of first attempt"""
+    uids = []
+    for _, _, kind, f in recs:
+        if kind == "enter" and f["step"] == step and f["uid"] not in uids:
+            uids.append(f["uid"])
+    return {u: attempts_of(recs, step, u) for u in uids}
 
 
 def attempts_of(recs, step="s0", uid=1):
